@@ -196,7 +196,7 @@ const (
 	//   0123456789abcdef0123456789abcdef
 	intMode = "" +
 		".........II..I.................." + // 0x00
-		"I.......II.a.a..aaaaaaaaaa......" + // 0x20
+		"I.......II.a.a.aaaaaaaaaaa......" + // 0x20
 		".aaaaaaaaaaaaaaaaaaaaaaaaaa....." + // 0x40
 		".aaaaaaaaaaaaaaaaaaaaaaaaaa......" + // 0x60
 		"................................" + // 0x80
@@ -1128,6 +1128,20 @@ func (r *reader) pushChar(src []byte) {
 func (r *reader) pushInteger(src []byte) {
 	token := string(r.makeToken(src))
 	var obj Object
+	if i := strings.IndexByte(token, '/'); 0 < i {
+		// A ratio with a radix prefix such as #x1/2 or #3r-2/11.
+		var (
+			num big.Int
+			den big.Int
+		)
+		if _, ok := num.SetString(token[:i], r.base); ok {
+			if _, ok = den.SetString(token[i+1:], r.base); ok && 0 < den.Sign() {
+				r.pushObject(NewBigRatio(&num, &den))
+				return
+			}
+		}
+		r.raise("%s is not a valid base %d ratio", token, r.base)
+	}
 	if i, err := strconv.ParseInt(token, r.base, 64); err == nil {
 		obj = Fixnum(i)
 	} else {
